@@ -444,9 +444,6 @@ func (x *executor) leafRows(item FromItem, fr *frame, base [][]Value, cache from
 		} else {
 			tbl, ok := x.db.table(t.Name)
 			if !ok {
-				if _, known := baseTables[t.Name]; known {
-					unsup("table %q is not modelled at run time", t.Name)
-				}
 				bindErr("relation %q does not exist", t.Name)
 			}
 			rows = tbl
